@@ -642,7 +642,7 @@ def case_derived(case, ctx, rnd, mech, res):
 # MANIFEST-BEGIN
 MANIFEST = {
     'technique': 'reference-model monitor on YAML-defined, Python-defined, round-tripped and derived templates + differential monitor of parser.replace / update_template against a tokenizer-based whole-identifier rewrite',
-    'level_text': 'Generated specs are built from emitted YAML text and with the Python classes, dumped with to_yaml and re-loaded, and derived through base: with edit dictionaries (replace, append, add, variable overrides; via YAML and update_template); every variant must have the reference dynamics at random states (1e-8), derived equations must equal an independent tokenizer rewrite, base templates must be unchanged, and parser.replace is compared with the tokenizer oracle on thousands of random equations over identifier sets that contain one another (r, rr, r_in, r_in0, m_in2, ...). Edit dictionaries also combine add with replace / append; circuits of two nodes that share their operators with different per-node values are round-tripped and compared by value. The same edit dictionary object is applied a second time to the same base; circuits of 2-4 nodes that share their operators with different per-node values are round-tripped. A yaml_shared_update family dumps circuits whose sub-circuits are one shared template object after update_var on one of them. The rewrite family also uses the .yml spelling and pyrates.save(..., filetype=yaml) as writer. Held on observed models and edits only.',
+    'level_text': 'Generated specs are built from emitted YAML text and with the Python classes, dumped with to_yaml and re-loaded, and derived through base: with edit dictionaries (replace, append, add, variable overrides; via YAML and update_template); every variant must have the reference dynamics at random states (1e-8), derived equations must equal an independent tokenizer rewrite, base templates must be unchanged, and parser.replace is compared with the tokenizer oracle on thousands of random equations over identifier sets that contain one another (r, rr, r_in, r_in0, m_in2, ...). Edit dictionaries also combine add with replace / append; circuits of two nodes that share their operators with different per-node values are round-tripped and compared by value. The same edit dictionary object is applied a second time to the same base; circuits of 2-4 nodes that share their operators with different per-node values are round-tripped. A yaml_shared_update family dumps circuits whose sub-circuits are one shared template object after update_var on one of them. The rewrite family also uses the .yml spelling and pyrates.save(..., filetype=yaml) as writer. A circuit_derivation family loads a base circuit and two circuits derived from it (YAML base: <circuit>, or update_template(edges=...)) in random order; each must have its own dynamics. Held on observed models and edits only.',
     'level_note': 'Trusted: vp/ref.py, the 6-line tokenizer, vp/build.py YAML emitter (validated by the fact that YAML- and Python-built models agree with the reference). Edge templates in YAML are covered as far as vp/build emits them (plain edges with attributes).',
 }
 # MANIFEST-END
